@@ -47,6 +47,13 @@ class WModel(torch.nn.Module):
             self.W[1, 0, :2] = 1.0
             self.W[2, 3, :] = torch.arange(L).float() % 2
             self.W = self.W.reshape(3, -1)
+        elif kind == "tail":
+            # only the last 30 positions matter: every improving placement lies near the end of the sequence
+            self.W = torch.zeros(3, A, L)
+            self.W[0, 2, L - 3:] = 1.0
+            self.W[1, 0, L - 30:L - 28] = 1.0
+            self.W[2, 3, L - 20:L - 12:2] = 1.0
+            self.W = self.W.reshape(3, -1)
         else:
             self.conv = torch.nn.Conv1d(A, 2, 2)
             with torch.no_grad():
@@ -55,7 +62,7 @@ class WModel(torch.nn.Module):
 
     def forward(self, X):
         X = X.float()
-        if self.kind in ("linear", "lastG"):
+        if self.kind in ("linear", "lastG", "tail"):
             return X.flatten(1) @ self.W.T
         h = torch.relu(self.conv(X))
         return torch.stack([h[:, 0].sum(1), h[:, 1].sum(1), h[:, 0, -1] - h[:, 1, 0]], dim=1)
@@ -80,6 +87,13 @@ def shards(tier, seed):
                                     mi=mi, masked=masked, weight=2 ** L * len(MOTIF_SETS[mi])))
     out.append(dict(name="L40/linear/long", L=40, kind="linear", mi=-1, masked=False, long=True, weight=3000))
     out.append(dict(name="L33/conv/long", L=33, kind="conv", mi=-1, masked=True, long=True, weight=3000))
+    # more than 1024 fitting positions per motif; the model rewards the LAST positions, so the optimum lies beyond position 1024
+    out.append(dict(name="L1100/tail/long", L=1100, kind="tail", mi=-1, masked=False, long=True, weight=4000))
+    out.append(dict(name="L1100/linear/long", L=1100, kind="linear", mi=-1, masked=True, long=True, weight=4000))
+    # non-default alphabet orders (the rows of X follow the alphabet handed to the call; motifs are strings)
+    for alph, kind, mi in (("ACTG", "lastG", 0), ("TGCA", "linear", 2), ("GATC", "linear", 4), ("ACTG", "linear", 1)):
+        out.append(dict(name="L6/%s/m%d/alphabet_%s" % (kind, mi, alph), L=6, kind=kind, mi=mi, masked=False, alph=alph,
+                        weight=2 ** 6 * len(MOTIF_SETS[mi])))
     return out
 
 
@@ -97,6 +111,8 @@ def run_shard(sh, tier, seed):
     from tangermeme.design import greedy_substitution
     rec = Recorder(PID, sh["name"])
     L, kind = sh["L"], sh["kind"]
+    ALPH = sh.get("alph", "ACGT")       # the alphabet order of the one-hot rows (handed to the call when it is not the default)
+    akw = {} if ALPH == "ACGT" else dict(alphabet=list(ALPH))
     motifs = [m for m in MOTIF_SETS[sh["mi"]]] if sh["mi"] >= 0 else ["GGGCGGGC", "TTA", "C", "ACGTACG", "GATAA"]
     fit = [m for m in motifs if len(m) <= L]
     model = WModel(L, kind, seed)
@@ -124,6 +140,7 @@ def run_shard(sh, tier, seed):
         X = ohe(numpy.array([codes]), A)
         Xc = X.clone()
         args = dict(max_iter=1, tol=0)
+        args.update(akw)
         args.update(kw)
         st, val = call(greedy_substitution, model, X, motifs, y, mask=mask, device="cpu", **args)
         if st == "ok" and not torch.equal(X, Xc):
@@ -139,7 +156,7 @@ def run_shard(sh, tier, seed):
 
     seen = {}
     frontier = collections.deque()
-    start_list = _starts(L) if not sh.get("long") else [tuple((i * k + k // 2 + (i // 3)) % A for i in range(L)) for k in range(1, 7)]
+    start_list = _starts(L) if not sh.get("long") else [tuple((i * k + k // 2 + (i // 3)) % A for i in range(L)) for k in range(1, 7 if L < 1000 else 3)]
     for s0 in start_list:
         if s0 not in seen:
             seen[s0] = None
@@ -158,7 +175,7 @@ def run_shard(sh, tier, seed):
         rec.count("transitions")
         rec.case(1, int(improving))
         case = dict(fn="greedy_substitution", L=L, model=kind, motifs=motifs, masked=sh["masked"], seq="".join(ALPH[c] for c in s),
-                    max_iter=1, tol=0, batch_size=bs, seed=seed)
+                    max_iter=1, tol=0, batch_size=bs, seed=seed, alphabet=ALPH)
         best_cands = [c for c, l in zip(cands, losses) if l == best] if improving else []
         is_last = improving and all(p == L - len(motifs[mi]) for (mi, p, _) in best_cands)
         n_last += int(is_last)
@@ -221,7 +238,7 @@ def run_shard(sh, tier, seed):
                 rec.count("traces_validated_against_impl")
                 if st != "ok" or got != exp:
                     rec.violation("greedy:multistep_differs", dict(fn="greedy_substitution", L=L, model=kind, motifs=motifs,
-                                  masked=sh["masked"], seq="".join(ALPH[c] for c in s), max_iter=max_iter, tol=tol, seed=seed),
+                                  masked=sh["masked"], seq="".join(ALPH[c] for c in s), max_iter=max_iter, tol=tol, seed=seed, alphabet=ALPH),
                                   expected="".join(ALPH[c] for c in exp), observed="".join(ALPH[c] for c in got) if st == "ok" else got)
                 elif loss_of(got) > loss_of(s):
                     rec.violation("greedy:final_loss_higher", dict(seq=s, max_iter=max_iter, tol=tol))
@@ -238,9 +255,10 @@ def replay(v):
     model = WModel(L, c["model"], c.get("seed", 0))
     mask = torch.tensor([True, False, True]) if c["masked"] else None
     y = torch.tensor([[3.0, 1.0, 2.0]])
+    ALPH = c.get("alphabet", "ACGT")
     X = ohe(numpy.array([[ALPH.index(ch) for ch in c["seq"]]]), A)
     st, val = call(greedy_substitution, model, X, c["motifs"], y, mask=mask, device="cpu", max_iter=c["max_iter"], tol=c["tol"],
-                   batch_size=c.get("batch_size", 32))
+                   batch_size=c.get("batch_size", 32), **({} if ALPH == "ACGT" else dict(alphabet=list(ALPH))))
     if st != "ok":
         return False, "greedy_substitution raised: %s" % val
     got = "".join(ALPH[k] for k in decode(val)[0][0])
